@@ -99,6 +99,26 @@ var _ = encode.U16{}
 
 // vSkeleton returns a concrete, strictly ascending key list chosen for its shape.
 func vSkeleton(id int) []string {
+	if id >= 310 {
+		// group families whose bitmap length / inner count / short count is a multiple of 64
+		// (found by a native search): 30x{a,b} (128 bits, last node short), 56x{a,b} (64 inner
+		// nodes), 64x{a,b} (64 short nodes), 30x{a,aa}, 54x{a,b,c} (256 bits), 56x{a,b,c} (64 inner)
+		g := []int{30, 56, 64, 30, 54, 56}[id-310]
+		suf := [][]string{{"a", "b"}, {"a", "b"}, {"a", "b"}, {"a", "aa"}, {"a", "b", "c"}, {"a", "b", "c"}}[id-310]
+		var ks []string
+		for i := 0; i < g; i++ {
+			p := string([]byte{byte('0' + i/16), byte('a' + i%16)})
+			for _, x := range suf {
+				ks = append(ks, p+x)
+			}
+		}
+		return vUniqSorted(ks)
+	}
+	if id >= 300 {
+		// sweep sizes with 64-aligned structure: 54 (Inners = 512 bits), 242 (64 inner nodes),
+		// 523 (128 inner nodes), 94 (64 leaves), 219 (128 leaves), 63 (64 nodes), 660 (128 inner, 15 big nodes)
+		return vSweep([]int{54, 242, 523, 94, 219, 63, 660}[id-300])
+	}
 	if id >= 100 {
 		return vSweep(5 + 7*(id-100))
 	}
@@ -180,6 +200,25 @@ func vSkeleton(id int) []string {
 			}
 		}
 		return vSorted(ks)
+	case 11: // a 257-bit root whose first bitmap word coincides with a frequent 17-bit bitmap:
+		// first byte in {0x01, 0x02, 'A'..'L'} (14 > 10 children), then three bytes from {0x10, 0x20}
+		var ks []string
+		firsts := []byte{0x01, 0x02}
+		for c := byte('A'); c <= 'L'; c++ {
+			firsts = append(firsts, c)
+		}
+		for _, f := range firsts {
+			for i := 0; i < 8; i++ {
+				b := []byte{f, 0x10, 0x10, 0x10}
+				for j := 0; j < 3; j++ {
+					if i&(1<<uint(j)) != 0 {
+						b[1+j] = 0x20
+					}
+				}
+				ks = append(ks, string(b))
+			}
+		}
+		return vUniqSorted(ks)
 	}
 	panic("unknown skeleton")
 }
